@@ -95,12 +95,24 @@ class BtRun:
         all_sources = self.sources + self.derived
         # subscriptions in the scripted order
         self.handlers: Dict[int, Any] = {}
+        class Holder:
+            """Handlers are often bound methods: every attribute access yields a new, equal but not identical, object."""
+            def __init__(self, fn):
+                self._fn = fn
+
+            async def on_event(self, e):
+                return await self._fn(e)
+
         for sub in sc["subscriptions"]:
             kind = sub["kind"]
             h = self.handlers.get(sub["id"])
             if h is None:
                 h = self._mk_handler(sub)
+                if sub.get("bound"):
+                    h = Holder(h)
                 self.handlers[sub["id"]] = h
+            if isinstance(h, Holder):
+                h = h.on_event
             if kind == "h":
                 self.d.subscribe(all_sources[sub["source"]], h)
                 if sub["id"] not in self.subs[sub["source"]]:
